@@ -28,7 +28,9 @@ import (
 	"io"
 	"math"
 	"math/rand/v2"
+	"os"
 	"reflect"
+	"runtime/pprof"
 	"sort"
 	"strconv"
 	"strings"
@@ -2714,3 +2716,11 @@ func runC08(c *Ctx) {
 
 var c8workerFail atomic.Pointer[any]
 var c8stopProf = func() {}
+
+func init() { // optional CPU profile of the harness itself (development aid)
+	if p := os.Getenv("C08_CPUPROFILE"); p != "" {
+		if f, err := os.Create(p); err == nil && pprof.StartCPUProfile(f) == nil {
+			c8stopProf = pprof.StopCPUProfile
+		}
+	}
+}
